@@ -246,13 +246,23 @@ pub fn gen_rdata_for(rng: &mut Rng, rtype: u16, name_gen: &mut dyn FnMut(&mut Rn
             }
             RData::DNAME(n)
         }
-        _ => RData::Opaque(gen_opaque(rng, 64)),
+        _ => {
+            // now and then a data length whose high byte is not zero
+            if rng.chance(1, 40) {
+                let n = rng.range(256, 700);
+                RData::Opaque(rng.bytes(n))
+            } else {
+                RData::Opaque(gen_opaque(rng, 64))
+            }
+        }
     }
 }
 
 pub const REC_TYPES: &[u16] = &[
     T_A, T_A, T_A, T_AAAA, T_AAAA, T_NS, T_NS, T_CNAME, T_CNAME, T_PTR, T_MX, T_MX, T_SOA, T_SOA, T_DNAME,
     T_TXT, T_TXT, T_DS, 33, 99, 257, 65280, 0, 255, 250, 46, 47, 35, 65535, 3, 4, 7, 14, 17, 18, 21, 36,
+    // single-name types the library treats as opaque (MG, MR), and the neighbours of OPT (41)
+    8, 9, 40, 42,
 ];
 
 /// TTL values with special bit patterns as well as arbitrary ones.
@@ -369,6 +379,19 @@ fn name_pool(rng: &mut Rng, shape: Shape) -> (Vec<Name>, bool) {
             _ => {
                 nm = gen_name(rng);
             }
+        }
+        // a differently-cased copy of a name already in the pool: equal to it for rename and
+        // compression purposes, different on the wire
+        if !pool.is_empty() && rng.chance(1, 8) {
+            let mut cv: Name = rng.pick(&pool).clone();
+            for l in cv.0.iter_mut() {
+                for b in l.iter_mut() {
+                    if b.is_ascii_alphabetic() && rng.bool() {
+                        *b ^= 0x20;
+                    }
+                }
+            }
+            nm = cv;
         }
         pool.push(nm);
     }
@@ -552,6 +575,31 @@ pub fn gen_msg(rng: &mut Rng, cfg: &PacketCfg) -> Msg {
         let n = per(rng);
         for _ in 0..n {
             let mut r = gen_rec(rng, &mut name_gen);
+            if cfg.unique_tags {
+                tag += 1;
+                r.ttl = tag;
+            }
+            m.sec[s].push(r);
+        }
+    }
+    // crowd: one section with more than 255 records, so that its count needs both header bytes
+    // and a deletion or insertion crosses the 255/256 boundary
+    if cfg.shape == Shape::Many && rng.chance(1, 12) {
+        let s = if cfg.response { rng.below(3) } else { 2 };
+        let want = rng.range(254, 258);
+        while m.sec[s].len() < want {
+            let rtype = *rng.pick(&[T_A, T_A, T_TXT, T_AAAA]);
+            let mut r = Rec {
+                name: name_gen(rng),
+                rtype,
+                class: 1,
+                ttl: gen_ttl(rng),
+                rdata: if rtype == T_TXT {
+                    RData::Opaque(vec![1, b'x'])
+                } else {
+                    gen_rdata_for(rng, rtype, &mut name_gen)
+                },
+            };
             if cfg.unique_tags {
                 tag += 1;
                 r.ttl = tag;
